@@ -185,3 +185,18 @@ let split_name_finding (text : string) : bool =
     | [] -> false in
   go "" ps
 
+
+(* D50: a control structure stands where an unquoted attribute value would start: directly (or after white
+   space) after the equals sign of an attribute.  When it writes nothing the tokenizer is still before the
+   attribute value and takes what follows - the next attribute, quotes included - for the value *)
+let branch_at_value_finding (text : string) : bool =
+  let n = String.length text in
+  let starts_at i p = i + String.length p <= n && String.sub text i (String.length p) = p in
+  let rec skip_ws i = if i < n && (text.[i] = ' ' || text.[i] = '\t' || text.[i] = '\n') then skip_ws (i + 1) else i in
+  let rec go i =
+    if i >= n then false
+    else if text.[i] = '=' then
+      let j = skip_ws (i + 1) in
+      if List.exists (starts_at j) ["{{if"; "{{with"; "{{range"; "{{- if"; "{{ if"; "{{ with"; "{{ range"] then true else go (i + 1)
+    else go (i + 1) in
+  go 0
